@@ -480,6 +480,8 @@ class DatasetProcessor:
         GraphBasedModelConstructor.extended_transcript_ids = set()
 
         self.all_read_groups = set()
+        # alignment statistics (incl. the number of unaligned reads) are collected per experiment
+        self.alignment_stat_counter = EnumStats()
         if self.args.resume and os.path.exists(sample.read_group_file + "_lock"):
             logger.info("Read group table was split during the previous run, existing files will be used")
         else:
